@@ -325,10 +325,10 @@ def judge_c07(d, _=None):
     out = []
     for inv in d.invocations:
         if inv["outcome"] == "hung":
-            blocked = [f"{t['name']}:{t['on']}" for t in (inv.get("end_detail") or []) if t["state"] == "BLOCK"]
+            blocked = [f"{t['name']}:{t['on']}@{t.get('where')}" for t in (inv.get("end_detail") or []) if t["state"] == "BLOCK"]
             V(out, "C07", "invocation-never-ends",
-              f"invocation {inv['n']} did not end ({inv['end']}); blocked: {blocked}", how=inv["end"],
-              shape=_shape(d))
+              f"invocation {inv['n']} of {d.program.get('name')} did not end ({inv['end']}); blocked: {blocked}",
+              how=inv["end"], stuck=hang_signature(inv))
             continue
         if inv["outcome"] != "returned" or not isinstance(inv.get("out"), dict):
             continue
@@ -345,7 +345,7 @@ def judge_c07(d, _=None):
             V(out, "C07", "pending-while-user-function-running",
               f"invocation {inv['n']} returned PENDING while the {x['kind']} function at {x['path']} was still executing",
               kind=x["kind"])
-        if not inv.get("timers_at_return") and not inv.get("outstanding_at_return"):
+        if not inv.get("timers_at_return") and not inv.get("outstanding_at_return") and not inv.get("completed_during"):
             V(out, "C07", "pending-with-nothing-armed",
               f"invocation {inv['n']} returned PENDING but the backend has no armed timer and awaits no event")
     f = d.final or {}
@@ -390,3 +390,32 @@ def judge_c10(d, _=None):
                   f"{e['kind']} function at {fmt_path(e['path'])} was entered after the backend applied the completion of "
                   f"its ancestor context {fmt_path(cp)}", kind=e["kind"])
     return out
+
+
+def role(name):
+    if name == "main":
+        return "main"
+    if name.startswith("dex-handler_0"):
+        return "ckpt"
+    if name.startswith("dex-handler_1"):
+        return "user"
+    if name.startswith("Thread-v"):
+        return "timer"
+    if name.startswith("ThreadPoolExecutor"):
+        return "worker"
+    return name
+
+
+def hang_signature(inv):
+    """Who is stuck where (SDK function), ignoring idle pool workers and the polling consumer."""
+    parts = set()
+    for t in inv.get("end_detail") or []:
+        if t["state"] != "BLOCK":
+            continue
+        r = role(t["name"])
+        on = t.get("on")
+        kind = on[1] if isinstance(on, (list, tuple)) and len(on) == 2 else str(on)
+        if kind in ("pool-idle",) or (r == "ckpt" and kind == "q-get") or r == "main":
+            continue
+        parts.add(f"{r}:{kind}@{t.get('where')}")
+    return "+".join(sorted(parts)) or "none"
